@@ -379,18 +379,33 @@ public:
     os << "{\"entry\":" << cfg->getEntry().getBlockID()
        << ",\"exit\":" << cfg->getExit().getBlockID() << ",\"blocks\":[";
     bool firstB = true;
+    llvm::DenseMap<const Stmt *, const Stmt *> synth;
+    for (auto I = cfg->synthetic_stmt_begin(), E2 = cfg->synthetic_stmt_end(); I != E2; ++I)
+      synth[I->first] = I->second;
     for (const CFGBlock *B : *cfg) {
       if (!firstB)
         os << ",";
       firstB = false;
       os << "{\"id\":" << B->getBlockID() << ",\"elems\":[";
       bool firstE = true;
+      int lastDecl = -2;
       for (const CFGElement &E : *B) {
         if (auto CS = E.getAs<CFGStmt>()) {
+          const Stmt *S = CS->getStmt();
+          // a declaration statement with several declarators is split by the CFG builder into synthetic
+          // one-declarator statements: report the statement that is in the AST, once per block
+          auto syn = synth.find(S);
+          if (syn != synth.end()) {
+            S = syn->second;
+            int id = idOf(S);
+            if (id == lastDecl)
+              continue;
+            lastDecl = id;
+          }
           if (!firstE)
             os << ",";
           firstE = false;
-          os << idOf(CS->getStmt());
+          os << idOf(S);
         }
       }
       os << "]";
